@@ -41,7 +41,25 @@ def run_cfg(chk, facts, cfg):
         chk.notes.extend(m.problems)
         return
     from ..overrides import obligation as no_overrides
-    no_overrides(chk, PID, facts, sfx, [m.path], 'comparison operators of Interval (<, <=, !=, ... follow from partial_cmp / eq)')
+    def _sem_eq(kinds, env):
+        return kinds[0] == kinds[1] and m.denote('A', kinds[0], env) == m.denote('B', kinds[1], env)
+
+    def _ref(kinds, env):
+        a, b = m.denote('A', kinds[0], env), m.denote('B', kinds[1], env)
+        if _sem_eq(kinds, env):
+            return 'Equal'
+        if a[1] <= b[0]:
+            return 'Less'
+        if b[1] <= a[0]:
+            return 'Greater'
+        return 'None'
+
+    def _op_checker(opname, accept):
+        return lambda fnrec: table_check(chk, PID, facts, m, fnrec, '%s(override)%s' % (opname, sfx), ['A', 'B'], [], lambda kinds, env: _ref(kinds, env) in accept)
+    no_overrides(chk, PID, facts, sfx, [m.path], 'comparison operators of Interval (<, <=, !=, ... follow from partial_cmp / eq)',
+                 checkers={('PartialEq', 'ne'): lambda fnrec: table_check(chk, PID, facts, m, fnrec, 'ne(override)' + sfx, ['A', 'B'], [], lambda kinds, env: not _sem_eq(kinds, env)),
+                           ('PartialOrd', 'lt'): _op_checker('lt', ('Less',)), ('PartialOrd', 'le'): _op_checker('le', ('Less', 'Equal')),
+                           ('PartialOrd', 'gt'): _op_checker('gt', ('Greater',)), ('PartialOrd', 'ge'): _op_checker('ge', ('Greater', 'Equal'))}, traits=('PartialOrd', 'PartialEq', 'Ord', 'Eq'))
     pc = facts.trait_method('core::cmp::PartialOrd', m.path, 'partial_cmp')
     eq = facts.trait_method('core::cmp::PartialEq', m.path, 'eq')
     if not (chk.anchor('Interval::partial_cmp' + sfx, pc) and chk.anchor('Interval::eq' + sfx, eq)):
